@@ -128,6 +128,26 @@ func ruleNibbles(c *Ctx, r *Report, rule string) {
 		return true
 	})
 	_ = byteObj
+	if !(got["bindSelector"] == 0x0F && got["bindTarget"] == 0xF0) {
+		// the byte is not taken apart with two masks (a table keyed by the whole byte, say): the arm evaluated for
+		// each of the 256 option bytes says what every byte does, which is what the masks are for
+		if spec, err := loadLangSpec(); err == nil {
+			scratch := newReport(r.Prop, r.Level)
+			scratch.cur = r.cur
+			if usable, _ := ruleBindTable(c, scratch, "bind-table", vm, spec, true); usable {
+				bad := false
+				for _, o := range scratch.Obs {
+					if o.Status != Discharged {
+						bad = true
+					}
+				}
+				if !bad && len(scratch.Obs) > 0 {
+					r.ok(rule, "unpack", "decided per option byte by the BIND model: every documented target|selector byte selects as documented, every other byte is a runtime error")
+					return
+				}
+			}
+		}
+	}
 	r.check(got["bindSelector"] == 0x0F && got["bindTarget"] == 0xF0, rule, "unpack", "selector = byte&0x0F, target = byte&0xF0", fmt.Sprintf("the VM must unpack the BIND operand byte with masks 0x0F (selector) and 0xF0 (target); found %v", got), c.pos(arm.Clause.Pos()))
 }
 
@@ -902,6 +922,8 @@ func checkC04(c *Ctx, r *Report) {
 	}
 	ruleNibbles(c, r, "nibbles")
 	ruleBindEmission(c, r, "bind-emission")
+	r.rule("operand-emission", 6, "the emission primitives write what the VM decodes: emitOp one opcode byte, emitUvarint exactly the bytes uvarintToBytes produced for the operand (a slot, a constant index, a count), emitBytes each byte once: an operand emitted in another form names another slot or constant")
+	checkEmitPrimitives(c, r, "operand-emission")
 	// what BIND selects from: the result list holds completed toplevel blocks only, in definition order
 	ruleEndBlock(c, r, "candidates-completed")
 	vm, err := c.vmModel()
